@@ -157,6 +157,31 @@ impl Hist {
                 }
                 "ok".to_string()
             }
+            // C10: `crowded n:<k> <op>` - run <op> (a store / remove / vanish) while k read transactions are open (k = 0: as
+            // many as the reader table takes, i.e. the table is FULL and every further read transaction fails)
+            "crowded" => {
+                let k = t.n() as usize;
+                // the transactions borrow the store; the nested op must not drop or replace it (the generator only nests
+                // store / remove / vanish)
+                let st: &Store = unsafe { &*(self.st() as *const Store) };
+                let mut txns = Vec::new();
+                loop {
+                    if k != 0 && txns.len() >= k {
+                        break;
+                    }
+                    match st.read_txn() {
+                        Ok(x) => txns.push(x),
+                        Err(_) => break,
+                    }
+                    if txns.len() > 100_000 {
+                        break;
+                    }
+                }
+                let n = txns.len();
+                let r = self.op(t);
+                drop(txns);
+                format!("crowded {n} {r}")
+            }
             "map" => format!("map {}", map_digest(&self.dir.path().join("event.map"))),
             "reopen" => {
                 let s = self.store.take().unwrap();
@@ -913,7 +938,15 @@ pub fn cmd_conc(t: &mut Toks, root: &std::path::Path, line: &str) -> String {
     let mut resp = responses.lock().unwrap().clone();
     resp.sort();
     let rs: Vec<String> = resp.iter().map(|(t, n, r)| format!("{t}.{n}={r}")).collect();
-    // every event stored during the concurrent phase, re-read by the offset its store returned
+    let mut fin: Vec<String> = Vec::new();
+    for op in finalops.iter() {
+        let l = format!("; {op}");
+        let mut tt = Toks::new(&l);
+        let _ = tt.next();
+        fin.push(h.op(&mut tt));
+    }
+    // every event stored during the concurrent phase, re-read by the offset its store returned - after the final operations,
+    // so that a later store that overwrites committed bytes is seen
     let stored: Vec<(u64, Vec<u8>)> = std::mem::take(&mut *CONC_STORED.lock().unwrap());
     let mut changed = 0;
     if let Some(st) = h.store.as_ref() {
@@ -927,13 +960,6 @@ pub fn cmd_conc(t: &mut Toks, root: &std::path::Path, line: &str) -> String {
                 changed += 1;
             }
         }
-    }
-    let mut fin: Vec<String> = Vec::new();
-    for op in finalops.iter() {
-        let l = format!("; {op}");
-        let mut tt = Toks::new(&l);
-        let _ = tt.next();
-        fin.push(h.op(&mut tt));
     }
     format!("conc sched={} refcheck={},{} resp={} final={}", trace.join(","), stored.len(), changed, rs.join(" ;; "), fin.join(" | "))
 }
